@@ -143,14 +143,35 @@ Proof. exact recreate_after_last_leave_http. Qed.
 Print Assumptions C13_recreate_after_last_leave_http.
 
 (* ---- connections ---- *)
-(* a connection held by the worker is delivered only to a listener that is a member of the group
-   object at that moment, and to exactly the one whose Accept took it *)
+(* a connection held by the worker is delivered only when the channel is open, to exactly the listener
+   whose Accept took it, and that listener belongs to this group object and its accept loop is still
+   running: a current member, or a member whose Close has begun but whose loop has not yet noticed
+   closeCh ([can_receive]; the select in TCPGroupListener.Accept may pick either ready case) *)
 Theorem C13_handoff_to_exactly_one_live_member : forall k reqs i c c' r who gid gen m,
   k <> KHttp -> nth_error reqs i = Some (QConn r who) -> nth_error (c_t c) i = Some (THeld gid gen) ->
   step k reqs i c = Run c' -> nth_error (c_t c') i = Some (TConn (CTo m)) ->
-  m = who /\ exists g, nth_error (s_heap (c_s c)) gid = Some g /\ In m (g_lns g) /\ g_closed g = false.
+  m = who /\ can_receive c gid who = true /\
+  exists g, nth_error (s_heap (c_s c)) gid = Some g /\ g_closed g = false.
 Proof. exact handoff_to_member. Qed.
 Print Assumptions C13_handoff_to_exactly_one_live_member.
+
+(* for ALL request lists and schedules (tcp, tcpmux): no connection is ever dropped at the hand-off or
+   left in the backlog of the real listener while its group has a member ... *)
+Theorem C13_never_lost_while_member_live : forall k reqs sched lo hi c,
+  k <> KHttp -> run k reqs sched (init lo hi reqs) = Run c -> c_lost c = false.
+Proof. exact never_lost_while_member_live. Qed.
+Print Assumptions C13_never_lost_while_member_live.
+
+(* ... and in every reachable state a connection the worker holds is delivered by the hand-off step
+   to any current member whose accept loop runs: it cannot be stranded while a member is live *)
+Theorem C13_held_connection_deliverable : forall k reqs sched lo hi c i r who gid gen w p,
+  k <> KHttp -> run k reqs sched (init lo hi reqs) = Run c ->
+  nth_error reqs i = Some (QConn r who) -> nth_error (c_t c) i = Some (THeld gid gen) ->
+  who = Z.of_nat w -> (exists j, nth_error reqs w = Some (QJoin j)) ->
+  nth_error (c_t c) w = Some (TMember gid p) -> nmem w (c_dead c) = false ->
+  exists c', step k reqs i c = Run c' /\ nth_error (c_t c') i = Some (TConn (CTo who)).
+Proof. exact held_connection_deliverable. Qed.
+Print Assumptions C13_held_connection_deliverable.
 
 (* http: each request advances the counter by one and goes to pxyNames[counter mod len] *)
 Theorem C13_http_rotates_over_members : forall g g' o, http_pick g = (g', o) -> g_lns g <> [] ->
